@@ -391,10 +391,12 @@ class Ctx:
         """a symbolic real input.  `sample`: range used to draw concrete values for validation"""
         if self.mode == "concrete":
             if name not in self.values:
-                if self.rng is None:
-                    raise VkError("concrete run lacks a value for input %s" % name)
                 lo, hi = sample
-                self.values[name] = float(self.rng.uniform(lo, hi))
+                if self.rng is None:
+                    # replay of a model taken before this input existed (the obligation was flushed earlier): any admissible value will do
+                    self.values[name] = 0.5 * (lo + hi)
+                else:
+                    self.values[name] = float(self.rng.uniform(lo, hi))
             if name in self._names_seen:
                 raise VkError("duplicate input name %r (two inputs would be aliased)" % name)
             self._names_seen.add(name)
@@ -425,9 +427,7 @@ class Ctx:
     def boolean(self, name):
         if self.mode == "concrete":
             if name not in self.values:
-                if self.rng is None:
-                    raise VkError("concrete run lacks a value for input %s" % name)
-                self.values[name] = bool(self.rng.integers(0, 2))
+                self.values[name] = bool(self.rng.integers(0, 2)) if self.rng is not None else False
             self.input_order.append(name)
             return bool(self.values[name])
         v = z3.Bool(name)
